@@ -16,6 +16,8 @@ from .. import emitted
 from ..emitted import Src, src_from_clauses
 from ..terms import A, I, V, C, NIL, lst, clause, call, and_, or_, then, not_, conj, TRUE, FAIL, CUT
 
+# around CPython's limit for converting integers from and to decimal strings (4300 digits)
+HUGE_NUMERALS = ["9" * 4300, "1" + "0" * 4300, "0" * 7 + "9" * 4400, "0" * 5000, "0" * 5000 + "42"]
 NUMERALS = ["0", "1", "01", "007", "00", "10", "0123456789", "1234567890123456789012345678901234567890", "00000000000000000000000000000000000000001"]
 VARNAMES = ["X", "True", "False", "None", "ATOM_NIL", "__builtins__", "__class__", "__debug__", "_1", "_x", "L1", "Arg1", "DoBreak",
             "CutIf1", "X1", "Variable", "Atom", "Query", "Unify", "Y_y", "NotImplemented", "Ellipsis", "_abc"]
@@ -27,8 +29,14 @@ QUOTED = ["hello world", "it's", "\"dq\"", "a\nb", "x)", "):", "#c", "__import__
           "foo\n", "\nfoo", "foo\r", "foo ", " foo", "9lives", "foo\n\n", "foo\x0b", "foo\x0c", "f\u2028", "foo\x1c", "foo\x85"]
 
 
+def canon_digits(sp):
+    """the value of a numeral as a canonical digit string (no int(): spellings longer than CPython's
+    integer-string conversion limit of 4300 digits are part of the menu)"""
+    return sp.lstrip("0") or "0"
+
+
 def num(sp):
-    return {"t": "i", "n": str(int(sp)), "sp": sp}
+    return {"t": "i", "n": canon_digits(sp), "sp": sp}
 
 
 def positions(atomname):
@@ -123,7 +131,7 @@ def shape_programs(tier):
 
 def lexeme_programs(tier, rnd):
     out = []
-    for sp in NUMERALS:
+    for sp in NUMERALS + HUGE_NUMERALS:
         n = num(sp)
         out.append(src_from_clauses([clause(C("n1", n)), clause(C("n2", V(0)), call(C("=", V(0), C("f", n, lst([n]))))), clause(C("n3", V(0)), call(C("q", n)))],
                                     label="numeral:" + sp))
@@ -164,7 +172,7 @@ def derived_sources(chk, tier, rnd, atoms, quoted, varnames, numerals, n):
                 if v != "_":
                     vs.add(v)
             elif k == "NUM":
-                sp = rnd.choice(numerals); lex.append(sp); ints.add(str(int(sp)))
+                sp = rnd.choice(numerals); lex.append(sp); ints.add(canon_digits(sp))
             elif k == "UNOP":
                 u = rnd.choice("+-"); lex.append(u); strings.add(u)
             elif k == "BINOP":
